@@ -33,15 +33,29 @@ def bounds (clip : Bool) (start stop : Int) (it : Item) : Nat × Nat :=
   if clip then (asUsize (max (it.s : Int) start - start), asUsize (min (it.e : Int) stop - start))
   else (asUsize ((it.s : Int) - start), asUsize ((it.e : Int) - start))
 
-def loop (clip : Bool) (start stop : Int) : List Item → List (Option Int) → Out (List (Option Int))
+/-- `values()` of the Rust reader: the cell is overwritten -/
+def assign (w : Int) (_ : Option Int) : Option Int := some w
+
+/-- the loop over the items, for any per-cell update `upd` (`bump`: the Python routines; `assign`: `values()`) -/
+def loopG (upd : Int → Option Int → Option Int) (clip : Bool) (start stop : Int) :
+    List Item → List (Option Int) → Out (List (Option Int))
   | [], v => .ok v
   | it :: rest, v =>
-    match updRange (bump it.w) v (bounds clip start stop it).1 (bounds clip start stop it).2 with
+    match updRange (upd it.w) v (bounds clip start stop it).1 (bounds clip start stop it).2 with
     | .panic => .panic
-    | .ok v' => loop clip start stop rest v'
+    | .ok v' => loopG upd clip start stop rest v'
 
-def perBase (clip : Bool) (start stop : Int) (items : List Item) : Out (List (Option Int)) :=
-  loop clip start stop items (List.replicate (stop - start).toNat none)
+abbrev loop := loopG bump
+
+def perBaseG (upd : Int → Option Int → Option Int) (clip : Bool) (start stop : Int) (items : List Item) :
+    Out (List (Option Int)) :=
+  loopG upd clip start stop items (List.replicate (stop - start).toNat none)
+
+abbrev perBase := perBaseG bump
+
+/-- what a cell holding `x` becomes after the covering items, in order -/
+def afterG (upd : Int → Option Int → Option Int) (x : Option Int) (cov : List Item) : Option Int :=
+  cov.foldl (fun acc it => upd it.w acc) x
 
 /-- items covering base `start + i` -/
 def covering (start : Int) (items : List Item) (i : Nat) : List Item :=
@@ -86,14 +100,15 @@ theorem asUsize_nonneg (x : Int) (h : 0 ≤ x) : ((asUsize x : Nat) : Int) = x :
 /-- the reader's guarantee for bigBed entries (inclusive filter) and bigWig values (strict, clipped) -/
 def Reachable (start stop : Int) (it : Item) : Prop := start ≤ it.e ∧ (it.s : Int) ≤ stop
 
-theorem loop_spec (start : Int) (L : Nat) : ∀ (items : List Item) (v : List (Option Int)), v.length = L →
+theorem loopG_spec (upd : Int → Option Int → Option Int) (start : Int) (L : Nat) :
+    ∀ (items : List Item) (v : List (Option Int)), v.length = L →
     (∀ it ∈ items, Reachable start (start + L) it) →
-    loop true start (start + L) items v = .ok (v.mapIdx fun i x => after x (covering start items i)) := by
+    loopG upd true start (start + L) items v = .ok (v.mapIdx fun i x => afterG upd x (covering start items i)) := by
   intro items
   induction items with
   | nil =>
     intro v _ _
-    simp only [loop, covering, List.filter_nil, after_nil]
+    simp only [loopG, covering, List.filter_nil, afterG, List.foldl_nil]
     congr 1
     apply List.ext_getElem
     · simp
@@ -108,12 +123,12 @@ theorem loop_spec (start : Int) (L : Nat) : ∀ (items : List Item) (v : List (O
     have hhiL : asUsize (min (it.e : Int) (start + L) - start) ≤ L := by
       have : ((asUsize (min (it.e : Int) (start + L) - start) : Nat) : Int) ≤ L := by rw [hhi]; omega
       exact_mod_cast this
-    simp only [loop, bounds, if_true]
+    simp only [loopG, bounds, if_true]
     -- both branches of `updRange` give the same pointwise description
-    have hupd : ∃ v', updRange (bump it.w) v (asUsize (max (it.s : Int) start - start))
+    have hupd : ∃ v', updRange (upd it.w) v (asUsize (max (it.s : Int) start - start))
           (asUsize (min (it.e : Int) (start + L) - start)) = .ok v' ∧ v'.length = L ∧
           ∀ i (h : i < v'.length) (h' : i < v.length), v'[i] =
-            if ((it.s : Int) ≤ start + i ∧ start + (i : Int) < it.e) then bump it.w v[i] else v[i] := by
+            if ((it.s : Int) ≤ start + i ∧ start + (i : Int) < it.e) then upd it.w v[i] else v[i] := by
       unfold updRange
       split
       · rename_i hge
@@ -147,9 +162,36 @@ theorem loop_spec (start : Int) (L : Nat) : ∀ (items : List Item) (v : List (O
       rw [hpt i hi' hi]
       simp only [covering, List.filter_cons]
       by_cases hc : ((it.s : Int) ≤ start + i ∧ start + (i : Int) < it.e)
-      · simp only [hc, and_self, decide_true, if_true]
-        exact after_cons_cov _ _ _
+      · simp only [hc, and_self, decide_true, if_true, afterG, List.foldl_cons]
       · simp only [hc, decide_false, if_false, Bool.false_eq_true]
+
+theorem afterG_bump (x : Option Int) (cov : List Item) : afterG bump x cov = after x cov := by
+  induction cov generalizing x with
+  | nil => simp [afterG, after]
+  | cons it cov ih =>
+    have : afterG bump x (it :: cov) = afterG bump (bump it.w x) cov := rfl
+    rw [this, ih, after_cons_cov]
+
+theorem afterG_assign (x : Option Int) (cov : List Item) :
+    afterG assign x cov = match cov.getLast? with | some it => some it.w | none => x := by
+  induction cov generalizing x with
+  | nil => simp [afterG]
+  | cons it cov ih =>
+    have : afterG assign x (it :: cov) = afterG assign (assign it.w x) cov := rfl
+    rw [this, ih]
+    cases cov with
+    | nil => simp [assign]
+    | cons c cs =>
+      rw [List.getLast?_cons_cons]
+      cases h : (c :: cs).getLast? with
+      | none => simp at h
+      | some y => rfl
+
+theorem loop_spec (start : Int) (L : Nat) (items : List Item) (v : List (Option Int)) (hv : v.length = L)
+    (hr : ∀ it ∈ items, Reachable start (start + L) it) :
+    loop true start (start + L) items v = .ok (v.mapIdx fun i x => after x (covering start items i)) := by
+  rw [show loop = loopG bump from rfl, loopG_spec bump start L items v hv hr]
+  simp only [afterG_bump]
 
 /-- **C20, per-base routines (repaired `to_entry_array`; `to_array` on the reader's clipped values).**
     For every range `[start, start+L)` and every list of items the reader can return for it, the routine
@@ -160,16 +202,55 @@ theorem perBase_spec (start : Int) (L : Nat) (items : List Item)
     perBase true start (start + L) items =
       .ok ((List.range L).map fun i =>
         if covering start items i = [] then none else some (wsum (covering start items i))) := by
-  unfold perBase
+  show loopG bump true start (start + L) items (List.replicate (start + L - start).toNat none) = _
   have hL : (start + L - start).toNat = L := by
     have : start + (L : Int) - start = L := by omega
     rw [this]; exact Int.toNat_natCast L
-  rw [hL, loop_spec start L items _ (by simp) hr]
+  rw [hL, show loopG bump = loop from rfl, loop_spec start L items _ (by simp) hr]
   congr 1
   apply List.ext_getElem
   · simp
   · intro i h1 h2
     simp [after]
+
+/-- when `to_array` receives values already clipped to the range (what `get_interval` returns), clipping
+    again changes nothing: the unclipped routine and the clipped one coincide -/
+theorem bounds_clip_irrelevant (start stop : Int) (it : Item) (h1 : start ≤ it.s) (h2 : (it.e : Int) ≤ stop) :
+    bounds false start stop it = bounds true start stop it := by
+  simp only [bounds, Bool.false_eq_true, if_false, if_true]
+  rw [Int.max_eq_left h1, Int.min_eq_left h2]
+
+/-- **C03, `BigWigRead::values`.** For every range and every list of block values clipped to it, the array
+    holds at base `start + i` the value of the last returned item covering it (the only one, values being
+    disjoint) and `none` (NaN) where nothing covers it; no slice is out of bounds. -/
+theorem values_spec (start : Int) (L : Nat) (items : List Item)
+    (hclip : ∀ it ∈ items, start ≤ it.s ∧ it.s ≤ it.e ∧ (it.e : Int) ≤ start + L) :
+    perBaseG assign false start (start + L) items =
+      .ok ((List.range L).map fun i => (covering start items i).getLast?.map (·.w)) := by
+  have hL : (start + L - start).toNat = L := by
+    have : start + (L : Int) - start = L := by omega
+    rw [this]; exact Int.toNat_natCast L
+  have hsame : ∀ (its : List Item) (v : List (Option Int)), (∀ it ∈ its, start ≤ it.s ∧ it.s ≤ it.e ∧ (it.e : Int) ≤ start + L) →
+      loopG assign false start (start + L) its v = loopG assign true start (start + L) its v := by
+    intro its
+    induction its with
+    | nil => intro v _; rfl
+    | cons it rest ih =>
+      intro v h
+      have hb := bounds_clip_irrelevant start (start + L) it (h it (by simp)).1 (h it (by simp)).2.2
+      simp only [loopG, hb]
+      cases updRange (assign it.w) v (bounds true start (start + L) it).1 (bounds true start (start + L) it).2 with
+      | panic => rfl
+      | ok v' => exact ih v' (fun x hx => h x (by simp [hx]))
+  unfold perBaseG
+  rw [hL, hsame items _ hclip, loopG_spec assign start L items _ (by simp)
+    (fun it hit => ⟨by have := hclip it hit; omega, by have := hclip it hit; omega⟩)]
+  congr 1
+  apply List.ext_getElem
+  · simp
+  · intro i h1 h2
+    simp only [List.getElem_mapIdx, List.getElem_replicate, List.getElem_map, List.getElem_range, afterG_assign]
+    cases (covering start items i).getLast? <;> rfl
 
 /-- bigBed: the weight sum of unit-weight items is their number -/
 theorem wsum_unit (l : List Item) (h : ∀ it ∈ l, it.w = 1) : wsum l = l.length := by
@@ -179,13 +260,6 @@ theorem wsum_unit (l : List Item) (h : ∀ it ∈ l, it.w = 1) : wsum l = l.leng
     have := ih (fun it hit => h it (by simp [hit]))
     simp only [wsum, List.map_cons, List.sum_cons, List.length_cons] at this ⊢
     rw [h x (by simp), this]; omega
-
-/-- when `to_array` receives values already clipped to the range (what `get_interval` returns), clipping
-    again changes nothing: the unclipped routine and the clipped one coincide -/
-theorem bounds_clip_irrelevant (start stop : Int) (it : Item) (h1 : start ≤ it.s) (h2 : (it.e : Int) ≤ stop) :
-    bounds false start stop it = bounds true start stop it := by
-  simp only [bounds, Bool.false_eq_true, if_false, if_true]
-  rw [Int.max_eq_left h1, Int.min_eq_left h2]
 
 /-- as found, an entry reaching beyond the range end makes `to_entry_array` panic (D11) -/
 theorem as_found_panics : perBase false 10 20 [⟨5, 15, 1⟩, ⟨10, 25, 1⟩] = .panic := by decide
